@@ -275,7 +275,17 @@ def cross_module_backlink(draw, m):
                          + '}')),
         (m, raw('BPost', f'type {{NAME}} extending {lib}::Authored {{ property body -> str; }}')),
     ]
-    return dict(name='cross-module-backlink', A=decls, B={})
+    # the same schema as an explicit DDL script (a creation order that does not go through the
+    # SDL planner), for checks that must not build their input with the code under test
+    ddl = (f'create module {m} if not exists; create module {lib} if not exists; '
+           f'create abstract type {lib}::Authored; '
+           f'create type {m}::BUser {{ create property bn -> str; }}; '
+           f'alter type {lib}::Authored {{ create link author -> {m}::BUser; create property ttl -> str; }}; '
+           f'create type {m}::BPost extending {lib}::Authored {{ create property body -> str; }}; '
+           f'alter type {m}::BUser {{ create multi link posts := (.<author[is {m}::BPost]); '
+           + (f'create multi link titled := (select .<author[is {lib}::Authored] filter exists .ttl); ' if inter else '')
+           + '};')
+    return dict(name='cross-module-backlink', A=decls, B={}, ddl=ddl)
 
 
 def overloaded_functions(draw, m):
